@@ -98,7 +98,8 @@ structure Sess where
   so : Sorter                     -- `session.scheduler`
   twp : List Nat := []            -- `TASKS_WITH_PROVISIONAL_NODES`
   w : World
-  failMarks : List Nat := []      -- `skip_ancestor_failed`
+  failMarks : List Nat := []      -- `skip_ancestor_failed`, attached when a task fails (to its descendants in the DAG of that moment)
+  renewed : List Nat := []        -- `skip_ancestor_failed`, attached by `recreate_dag` to tasks below an already failed task (ee6b73e)
   stop : Bool := false            -- `session.should_stop`
   crashed : Bool := false         -- an exception escaped the protocol
   reports : List (Nat × Outcome) := []
@@ -107,14 +108,24 @@ structure Sess where
 
 def prio0 : Nat → Int := fun _ => 0
 
+/-- Does the task carry a `skip_ancestor_failed` mark? -/
+def failMarked (s : Sess) (t : Nat) : Bool := s.failMarks.contains t || s.renewed.contains t
+
+/-- `_skip_descendants_of_failed_tasks` (ee6b73e): every task below a task already reported FAIL in the (new) DAG gets the mark
+unless it has one. -/
+def renewFailMarks (g : G) (s : Sess) : List Nat :=
+  s.renewed ++ ((s.reports.filter (fun r => r.2 == Outcome.fail)).flatMap (fun r => taskDesc g r.1)).filter
+    (fun d => !(s.failMarks.contains d || s.renewed.contains d))
+
 /-- `recreate_dag`: on any exception a FAIL report for the task is appended and `should_stop` is set. -/
 def recreate (s : Sess) (t : Nat) : Sess :=
   match createDag (toProject s.tasks) {} with
   | .error _ => { s with reports := s.reports ++ [(t, Outcome.fail)], stop := true }
   | .ok (g, _) =>
+    -- the marks are renewed after the new DAG is stored and before the scheduler is rebuilt
     match Sorter.fromDagAndSorter g isTaskV prio0 s.so with
-    | .error _ => { s with g := g, reports := s.reports ++ [(t, Outcome.fail)], stop := true }
-    | .ok so => { s with g := g, so := so }
+    | .error _ => { s with g := g, renewed := renewFailMarks g s, reports := s.reports ++ [(t, Outcome.fail)], stop := true }
+    | .ok so => { s with g := g, so := so, renewed := renewFailMarks g s }
 
 def addTwp (twp : List Nat) (t : Nat) : List Nat := if twp.contains t then twp else twp ++ [t]
 
@@ -168,7 +179,7 @@ def setupExecute (s : Sess) (t : Nat) : Sess × Raised :=
 
 def setupImpl (s : Sess) (t : Nat) (name : String) : Sess × Raised :=
   if name == "provisional" then (setupProvisional s t, .none)
-  else if name == "skipping" then (s, if s.failMarks.contains t then .ancestorFailed else .none)
+  else if name == "skipping" then (s, if failMarked s t then .ancestorFailed else .none)
   else if name == "execute" then setupExecute s t
   else (s, .none)
 
